@@ -146,7 +146,12 @@ pub fn run_case(case: &mut Case) {
                             if let UKind::Arg { value, .. } | UKind::Word { value, .. } =
                                 &mut units[at].kind
                             {
-                                *value = b"12x".to_vec();
+                                // (an echoed item may contain an empty line)
+                                *value = if rng.chance(1, 3) {
+                                    b"1\n\n2".to_vec()
+                                } else {
+                                    b"12x".to_vec()
+                                };
                             }
                             sure_failure = true;
                             render(&units, &mut rng, SpellStyle::Canonical).argv
@@ -169,7 +174,14 @@ pub fn run_case(case: &mut Case) {
                     None => Vec::new(),
                 }
             }
-            _ => noise_vector(&b.alpha, &mut rng, 8),
+            _ => {
+                let mut v = noise_vector(&b.alpha, &mut rng, 8);
+                if rng.chance(1, 6) {
+                    let at = rng.below(v.len() + 1);
+                    v.insert(at, b"first\n\nsecond".to_vec());
+                }
+                v
+            }
         };
         // the OS cannot pass NUL bytes
         for a in &mut argv {
